@@ -335,6 +335,29 @@ func (x *Exec) applyContract(fr *frame, s *State, ct *Contract, callee *ssa.Func
 		post.names[k] = v
 	}
 	bindResults(post.names, sig, out)
+	// ghost counters: those this contract updates explicitly move from their pre-call
+	// value; every other counter the callee can reach an emitter of is forgotten
+	// (the callee's ensures may then constrain it).
+	explicit := map[string]bool{}
+	for _, g := range ct.Ghost {
+		name := g.Text
+		if i := strings.IndexAny(name, "+="); i >= 0 {
+			name = strings.TrimSpace(name[:i])
+		}
+		explicit[name] = true
+	}
+	preGhost := map[string]Term{}
+	for g := range x.E.ghostEmitters() {
+		preGhost[g] = x.ghost(s, g)
+	}
+	if callee != nil {
+		x.havocGhosts(s, callee)
+	}
+	for g := range explicit {
+		if t, ok := preGhost[g]; ok {
+			s.Ghost[g] = t
+		}
+	}
 	for _, g := range ct.Ghost {
 		x.ghostUpdate(post, s, g)
 	}
